@@ -76,6 +76,21 @@ TRIAGE_ARGS = {
 }
 
 
+_TRUNC: dict = {}
+
+
+def _truncation_point(ctx, cls) -> str:
+    key = (id(ctx), cls.name)
+    if key not in _TRUNC:
+        try:
+            I = problem_interp(ctx, cls)
+            t = I.attrs.get("max_demand")
+            _TRUNC[key] = show_norm(t) if t is not None else "?"
+        except (AnalysisError, Unsupported):
+            _TRUNC[key] = "?"
+    return _TRUNC[key]
+
+
 def _family(fn, recv) -> str:
     """Distribution family of the receiver of .pmf/.cdf/.log_prob: last name of the constructor /
     module path, following one local assignment (dist = Family(...); dist.log_prob(x))."""
@@ -215,8 +230,13 @@ def run(ctx: Context, col) -> None:
         else:
             seen_keys.add(key)
         verdict, reason = tri
+        text_ = f"{callee} [{verdict}]"
+        if verdict == "open":
+            # an open range is a finding about a particular truncation point: the point is part of the finding's identity, so that moving it
+            # (another, possibly worse, truncation) is a different finding and not covered by the recorded one
+            text_ = f"{callee} [open, truncated at {_truncation_point(ctx, cls)}]"
         col.add("R13.1", construct, cls.module.relpath, c.lineno, verdict == "closed",
-                f"{callee}: {reason}", text=f"{callee} [{verdict}]")
+                f"{callee}: {reason}" + (f" [truncation point in this tree: max_demand = {_truncation_point(ctx, cls)}]" if verdict == "open" else ""), text=text_)
     part(_log_hazards, ctx, col)
     if untriaged:
         # a distribution call nobody has read yet: whether its range is closed (tail folded, complement taken) is not something this rule
